@@ -3,9 +3,10 @@ import numpy as np
 
 from common import R, Rmat, cfl, fl, max_rel_err, ModelError
 
-from common import wiring_pre_build as pre_build  # noqa: E402,F401
+from common import all_pre_build as pre_build  # noqa: E402,F401  (wiring + hc + fncalls translators)
 
-LEAN_MODULES = ["PyomaVerif.Props.C13", "PyomaVerif.Props.C13Parseval", "PyomaVerif.Props.C13Phase", "PyomaVerif.Mutants.C13", "PyomaVerif.Props.WiringRun", "PyomaVerif.Props.WiringStore", "PyomaVerif.Props.WiringClass", "PyomaVerif.Props.WiringCalls"]
+LEAN_MODULES = ["PyomaVerif.Props.C13", "PyomaVerif.Props.C13Parseval", "PyomaVerif.Props.C13Phase", "PyomaVerif.Mutants.C13", "PyomaVerif.Props.WiringRun", "PyomaVerif.Props.WiringStore", "PyomaVerif.Props.WiringClass", "PyomaVerif.Props.WiringCalls",
+                "PyomaVerif.Props.C13Dispatch", "PyomaVerif.Props.WiringFn"]
 THEOREMS = [
     # call-site wiring of the class layer, regenerated from /repo on every run (translate_wiring.py)
     "PV.WiringRun.C13_run_spectral",
@@ -97,12 +98,39 @@ THEOREMS = [
     "PV.C13.Mutants.cor_conj_opposite_phase",
     "PV.C13.Mutants.opp_conj_violates_hann_gain_delay",
     "PV.C13.Mutants.raw_differs_below_line_2",
+    # Props/C13Dispatch.lean: SD_est as ONE function (Model/SpectralM.sdEstM, op sd_est, stream SD_est[dispatch])
+    "PV.C13.sdEstM_other_raises",
+    "PV.C13.sdEstM_unbound_iff",
+    "PV.C13.sdEstM_per",
+    "PV.C13.sdEstM_per_overlap_raises",
+    "PV.C13.sdEstM_cor",
+    "PV.C13.sdEstM_length_raises",
+    "PV.C13.sdEstM_ok_inv",
+    "PV.C13.sdEstM_grid",
+    "PV.C13.sd_grid_last_odd",
+    "PV.C13.sd_grid_last_odd_lt",
+    "PV.C13.perNoverlap_int",
+    "PV.C13.perNoverlap_lt",
+    "PV.C13.sdEstM_per_pov",
+    "PV.C13.expWin_real",
+    # Props/WiringFn.lean: the scipy calls INSIDE SD_est (which value reaches which csd / window parameter under which
+    # branch test), regenerated from /repo on every run (translate_fncalls.py)
+    "PV.WiringFn.C13_sd_est_csd_cor",
+    "PV.WiringFn.C13_sd_est_csd_per",
+    "PV.WiringFn.C13_sd_est_expwin",
+    "PV.WiringFn.C13_sd_est_calls",
+    "PV.WiringFn.C13_sd_est_defaults",
 ]
 RULE = (
     "correspondence: fdd.SD_est ('per' and 'cor') vs the Lean model Spectral.sdEstPer/sdEstCor executed with Float "
     "(twiddles cos/sin, Hann = 1/2 - 1/2 Re tw, exponential window exp) on random records (1..4 channels, 1..3 refs, "
     "nxseg 4..64 all parities, plus 128..512 quick / ..4096 thorough, overlaps incl. non-integer nxseg*pov, random dt), "
     "max |diff| <= 1e-9 * max |entry|, frequencies 1e-12; malformed stream (length mismatch, pov >= 1) must raise in both. "
+    "SD_est[dispatch]: the ONE dispatching model Spectral.sdEstM (op sd_est) vs fdd.SD_est on valid calls, unknown method strings (with and "
+    "without other faults), length mismatch, pov >= 1, nxseg 0..3, records shorter than a segment, pov < 0: same outcome CLASS (returns / "
+    "ValueError / UnboundLocalError), values 1e-9, the noverlap handed to scipy.signal.csd (recorded call) = the model's int(nxseg*pov), "
+    "the lag window returned by signal.windows.exponential (recorded) = the model's expWin 1e-13; SD_est[noverlap]: int(nxseg*pov) exact on "
+    "300 / 4000 pairs incl. products that round up to an integer. "
     "oracle: the property's battery on the real code (independent numpy Welch lines >= 2, grid, pairing, bilinearity, "
     "g^2, Hermitian PSD, Parseval (mean square 5 %; exact window-weighted segment form of sd_per_parseval 1e-10), gain-and-delay (broadband 5 % / 30 %; "
     "EXACT 1e-9 on records satisfying the hypotheses of sd_cor_gain_delay -- lag-domain form, any exponential lag window -- and sd_per_gain_delay), grid-line sinusoids; class layer: result.freq/Sy of FDD and pLSCF through SingleSetup in "
